@@ -84,6 +84,10 @@ class OtherStr(str):
     def __hash__(self):
         return hash(("OtherStr", str.__str__(self)))
 
+    def __str__(self):
+        # like a (str, Enum) member: str() names the member, the character content is something else
+        return "OtherStr." + str.__str__(self)[:8]
+
 
 class AlternateSpelling:
     """Every second occurrence of a string is handed over as an OtherStr of the same text."""
